@@ -810,7 +810,7 @@ Definition visit_generic_phase (mods : list gmod) (arg : expr) (qubits : list qa
                 | S k' =>
                     v' <- (if inv then lift (py_binop OpMul (VInt (-1)) v) else ret v);;
                     s <- getst;;
-                    guard (negb (in_global s && negb (match qubits' with [] => true | _ => false end))) EValidation;;;
+                    guard (negb (enclosing_global s && negb (match qubits' with [] => true | _ => false end))) EValidation;;;
                     go k' v'
                 end) (Z.to_nat n) v0;;
     emit (repeat (SPhase [] (ELit final) qubits') (Z.to_nat n)).
